@@ -26,8 +26,8 @@ const WK: [&str; NW] = ["w0", "w1", "w2", "w3", "w4", "w5"];
 pub struct MutexWorld<M: RawMutex + 'static> {
     futs: Arena<GenericMutexLockFuture<'static, M, u64>>,
     guards: Vec<Option<GenericMutexGuard<'static, M, u64>>>,
-    prim_ref: &'static GenericMutex<M, u64>,
-    root: Option<Box<GenericMutex<M, u64>>>,
+    prim_ref: Option<&'static GenericMutex<M, u64>>,
+    root: Option<Owned<GenericMutex<M, u64>>>,
     prim_alive: bool,
     // model
     fair: bool,
@@ -74,13 +74,13 @@ impl<M: RawMutex + 'static> MutexWorld<M> {
             return;
         }
         // C02: is_locked() is true exactly while a guard is alive
-        let locked = self.prim_ref.is_locked();
+        let locked = self.prim_ref.unwrap().is_locked();
         if locked != self.holder.is_some() {
             env.fail("C02", "is-locked", format!("is_locked() = {} but {} guard is alive", locked, if self.holder.is_some() { "a" } else { "no" }), true);
             return;
         }
         let futs = &self.futs;
-        let snap = self.prim_ref.verif_snapshot(&mut |addr| futs.find(addr).is_some());
+        let snap = self.prim_ref.unwrap().verif_snapshot(&mut |addr| futs.find(addr).is_some());
         let resolve = |addr: usize| futs.find(addr).map(|id| (id, 0u8));
         let orders = oracle::c01_membership(env, &snap, &resolve, &[QueueKind { name: "waiters", kinds: &[0] }]);
         if env.has_fatal() {
@@ -116,9 +116,8 @@ impl<M: RawMutex + 'static> MutexWorld<M> {
 impl<M: RawMutex + 'static> World for MutexWorld<M> {
     fn new(cfg: &Cfg, _env: &mut Env) -> Self {
         let fair = cfg_get(cfg, "fair", 0) != 0;
-        let root = Box::new(GenericMutex::<M, u64>::new(7, fair));
-        // Safety: futures and guards are dropped before the root box (field order + DropPrim rule)
-        let prim_ref: &'static GenericMutex<M, u64> = unsafe { &*(&*root as *const _) };
+        // futures and guards are dropped before the root (field order + DropPrim rule)
+        let (root, prim_ref) = Owned::new(GenericMutex::<M, u64>::new(7, fair));
         let mut weights = [0u32; NW];
         for (i, w) in weights.iter_mut().enumerate() {
             *w = cfg_get(cfg, WK[i], 10) as u32;
@@ -126,7 +125,7 @@ impl<M: RawMutex + 'static> World for MutexWorld<M> {
         MutexWorld {
             futs: Arena::new(),
             guards: (0..MAX_IDS).map(|_| None).collect(),
-            prim_ref,
+            prim_ref: Some(prim_ref),
             root: Some(root),
             prim_alive: true,
             fair,
@@ -206,7 +205,7 @@ impl<M: RawMutex + 'static> World for MutexWorld<M> {
         match op.k {
             OP_NEW => {
                 if self.prim_alive && !self.used[id] {
-                    let m = self.prim_ref;
+                    let m = self.prim_ref.unwrap();
                     if let Some(f) = env.call("lock", || m.lock()) {
                         self.used[id] = true;
                         self.futs.put(id, f);
@@ -250,7 +249,7 @@ impl<M: RawMutex + 'static> World for MutexWorld<M> {
             }
             OP_TRY => {
                 if self.prim_alive && !self.used[id] {
-                    let m = self.prim_ref;
+                    let m = self.prim_ref.unwrap();
                     let any_pending = env.any_pending(0, usize::MAX);
                     if any_pending {
                         env.fault("barge");
@@ -279,6 +278,7 @@ impl<M: RawMutex + 'static> World for MutexWorld<M> {
             }
             OP_DROP_PRIM => {
                 if self.prim_alive && env.live.is_empty() && self.holder.is_none() {
+                    self.prim_ref = None;
                     let root = self.root.take();
                     env.call("drop mutex", || drop(root));
                     self.prim_alive = false;
